@@ -34,7 +34,8 @@ func init() {
 }
 
 // an argument is described by a spec string so that events replay exactly:
-//   i:<int> l:<int64> f:<float32 text> d:<float64 text> s:<text> b:<bool> n (null) t:<unix s> ts:<ms> a (array) o (object)
+//
+//	i:<int> l:<int64> f:<float32 text> d:<float64 text> s:<text> b:<bool> n (null) t:<unix s> ts:<ms> a (array) o (object)
 func argFromSpec(s string) *variants.Variant {
 	k, v := s, ""
 	if i := strings.Index(s, ":"); i >= 0 {
@@ -315,17 +316,17 @@ func genC08(g *Gen) {
 	}
 	nums := []string{"i:0", "i:1", "i:2", "i:3", "i:-8", "i:7", "l:5", "l:-2", "l:0", "f:1.5", "f:-2.25", "f:0", "d:2.5", "d:-0.5", "d:4", "d:0", "d:1", "d:-3.5", "d:0.5", "d:9", "d:16", "i:25", "l:100"}
 	targeted := map[string][][]string{
-		"timespan":  {{"i:5"}, {"l:1500"}, {"i:1", "i:2", "i:3"}, {"i:1", "i:2", "i:3", "i:4"}, {"i:1", "i:2", "i:3", "i:4", "i:5"}, {"i:0", "i:0", "i:0", "i:0", "i:7"}, {"l:2", "i:0", "i:30"}, {"i:-1", "i:0", "i:0"}},
-		"date":      {{"l:86400"}, {"i:0"}, {"i:2020"}, {"i:2020", "i:2"}, {"i:2020", "i:2", "i:28"}, {"i:1999", "i:12", "i:5", "i:23"}, {"i:2024", "i:7", "i:4", "i:9", "i:30"}, {"i:2001", "i:1", "i:1", "i:0", "i:0", "i:59"}, {"i:2020", "i:2", "i:3", "i:4", "i:5", "i:6", "i:7"}},
+		"timespan": {{"i:5"}, {"l:1500"}, {"i:1", "i:2", "i:3"}, {"i:1", "i:2", "i:3", "i:4"}, {"i:1", "i:2", "i:3", "i:4", "i:5"}, {"i:0", "i:0", "i:0", "i:0", "i:7"}, {"l:2", "i:0", "i:30"}, {"i:-1", "i:0", "i:0"}},
+		"date":     {{"l:86400"}, {"i:0"}, {"i:2020"}, {"i:2020", "i:2"}, {"i:2020", "i:2", "i:28"}, {"i:1999", "i:12", "i:5", "i:23"}, {"i:2024", "i:7", "i:4", "i:9", "i:30"}, {"i:2001", "i:1", "i:1", "i:0", "i:0", "i:59"}, {"i:2020", "i:2", "i:3", "i:4", "i:5", "i:6", "i:7"}},
 		"dayofweek": {{"t:0"}, {"t:86400"}, {"t:1700000000"}, {"t:951782400"}, {"t:1709164800"}, {"t:-86400"}, {"t:4102444800"}, {"l:86400"}, {"s:x"},
 			{"tz:1700000000:10800"}, {"tz:1700000000:-28800"}, {"tz:1700006400:-3600"}, {"tz:1700006400:3600"}, {"tz:951782400:-60"}, {"tz:951782399:60"}, {"tz:1709164800:50400"}, {"tz:1709164800:-43200"},
 			{"tz:86399:1"}, {"tz:86400:-1"}, {"tz:4102444800:19800"}, {"tl:1700000000"}, {"tl:1700071200"}, {"tl:951762600"}, {"tl:86400"}},
-		"if":        {{"b:true", "i:1", "i:2"}, {"b:false", "i:1", "i:2"}, {"i:0", "s:a", "s:b"}, {"i:5", "s:a", "s:b"}, {"d:0", "n", "i:1"}, {"d:0.5", "n", "i:1"}},
-		"choose":    {{"i:1", "s:a", "s:b"}, {"i:2", "s:a", "s:b"}, {"i:3", "s:a", "s:b", "s:c"}, {"i:3", "s:a", "s:b"}, {"i:-1", "s:a", "s:b"}, {"i:0", "s:a", "s:b"}, {"l:2", "i:7", "i:8", "i:9"}, {"i:7", "s:a", "s:b"}},
-		"contains":  {{"s:hello", "s:ell"}, {"s:hello", "s:xyz"}, {"s:hello", "s:"}, {"s:héllo", "s:é"}, {"s:abc", "s:abcd"}, {"s:", "s:a"}, {"i:123", "i:2"}, {"s:a1", "i:1"}},
-		"empty":     {{"n"}, {"i:0"}, {"s:"}, {"s:x"}, {"d:0"}, {"b:false"}, {"a"}},
-		"array":     {{}, {"i:1"}, {"i:1", "s:x", "n"}, {"a", "o", "d:1", "i:2", "i:3", "i:4", "i:5", "i:6"}},
-		"abs":       {{"i:-8"}, {"i:7"}, {"l:-9007199254740993"}, {"l:9007199254740993"}, {"i:-9223372036854775807"}, {"l:-9223372036854775808"}, {"f:-2.25"}, {"d:-0.5"}, {"d:3.5"}, {"s:-3"}, {"b:true"}, {"n"}, {"a"}},
+		"if":       {{"b:true", "i:1", "i:2"}, {"b:false", "i:1", "i:2"}, {"i:0", "s:a", "s:b"}, {"i:5", "s:a", "s:b"}, {"d:0", "n", "i:1"}, {"d:0.5", "n", "i:1"}},
+		"choose":   {{"i:1", "s:a", "s:b"}, {"i:2", "s:a", "s:b"}, {"i:3", "s:a", "s:b", "s:c"}, {"i:3", "s:a", "s:b"}, {"i:-1", "s:a", "s:b"}, {"i:0", "s:a", "s:b"}, {"l:2", "i:7", "i:8", "i:9"}, {"i:7", "s:a", "s:b"}},
+		"contains": {{"s:hello", "s:ell"}, {"s:hello", "s:xyz"}, {"s:hello", "s:"}, {"s:héllo", "s:é"}, {"s:abc", "s:abcd"}, {"s:", "s:a"}, {"i:123", "i:2"}, {"s:a1", "i:1"}},
+		"empty":    {{"n"}, {"i:0"}, {"s:"}, {"s:x"}, {"d:0"}, {"b:false"}, {"a"}},
+		"array":    {{}, {"i:1"}, {"i:1", "s:x", "n"}, {"a", "o", "d:1", "i:2", "i:3", "i:4", "i:5", "i:6"}},
+		"abs":      {{"i:-8"}, {"i:7"}, {"l:-9007199254740993"}, {"l:9007199254740993"}, {"i:-9223372036854775807"}, {"l:-9223372036854775808"}, {"f:-2.25"}, {"d:-0.5"}, {"d:3.5"}, {"s:-3"}, {"b:true"}, {"n"}, {"a"}},
 	}
 	// Date with components that have to be carried (months > 12, days > 31, hours > 23, huge fractions), also on hosts whose zone has daylight saving
 	for _, hz := range []string{"", "Europe/Berlin", "America/New_York", "Australia/Lord_Howe"} {
